@@ -1,7 +1,9 @@
 /-
   Property C09 — the sanitizer's output contains only allow-listed elements/attributes, no comments,
   no URI-valued attribute whose browser-resolved scheme is outside the allowed protocols, and disallowed
-  tags survive only as inert text.  All theorems are for EVERY token list and EVERY `Lists` configuration.
+  tags survive only as inert text; `sanitize_css` never returns `url\s*(` in any case (`C09_css_no_url`) and a kept `xlink:href` of
+  an `svg_allow_local_href` element is a local reference (`C09_svg_local_href`) — both since the library fixes
+  COMMIT_B / COMMIT_A.  All theorems are for EVERY token list and EVERY `Lists` configuration.
 
   Model: H5.Model.Sanitizer (hand model, tied by ops san / san:css / san:uri / san:scheme / re:*);
   browser side: H5.Spec.Url.browserScheme (URL standard).
@@ -103,6 +105,23 @@ theorem stepStyle_key (L : Lists) (a b : Attr)
     subst h
     exact ⟨rfl, fun _ => rfl⟩
 
+/-- the `svg_allow_local_href` rule only ever deletes attributes -/
+theorem stepLocalHref_mem (L : Lists) (name : Str) (attrs out : List Attr) (h : stepLocalHref L name attrs = .ok out) :
+    ∀ b ∈ out, b ∈ attrs := by
+  unfold stepLocalHref at h
+  split at h
+  · split at h
+    · simp only [bind_eq_ok, pure, Except.pure, Except.ok.injEq] at h
+      obtain ⟨m, _, rfl⟩ := h
+      intro b hb
+      split at hb
+      · exact (List.mem_filter.1 hb).1
+      · exact hb
+    · simp only [pure, Except.pure, Except.ok.injEq] at h
+      subst h; exact fun b hb => hb
+  · simp only [pure, Except.pure, Except.ok.injEq] at h
+    subst h; exact fun b hb => hb
+
 /-- every attribute of an allowed token's output stems from an input attribute with the same key that is on
 `allowedAttributes`, passed the URI check if it is URI-valued, and is unchanged unless it is a `style`
 attribute or on `svgAttrValAllowsRef`. -/
@@ -113,12 +132,9 @@ theorem allowedAttrs_mem (L : Lists) (name : Str) (attrs out : List Attr)
       (L.svgAttrValAllowsRef.elem (akey a) = false → akey a ≠ styleKey → b = a) := by
   simp only [allowedAttrs, bind_eq_ok] at h
   obtain ⟨l1, h1, l2, h2, l3, h3, h4⟩ := h
-  have e3 : l3 = l2 := by
-    simp only [stepLocalHref, strInKeys, Bool.false_eq_true, if_false, pure, Except.pure, Except.ok.injEq] at h3
-    exact h3.symm
-  subst e3
   obtain ⟨a3, ha3, hf3⟩ := mapE_mem _ _ _ h4 b hb
   obtain ⟨k3, u3⟩ := stepStyle_key L a3 b hf3
+  have ha3 : a3 ∈ l2 := stepLocalHref_mem L name l2 l3 h3 a3 ha3
   obtain ⟨a2, ha2, hf2⟩ := mapE_mem _ _ _ h2 a3 ha3
   obtain ⟨k2, u2⟩ := stepSvgRef_key L a2 a3 hf2
   obtain ⟨ha1, hf1⟩ := filterE_mem _ _ _ h1 a2 ha2
@@ -132,6 +148,130 @@ theorem allowedAttrs_mem (L : Lists) (name : Str) (attrs out : List Attr)
     have : akey a3 ≠ styleKey := by rw [e32]; exact hs
     rw [u3 this, e32]
 
+/-! #### the `svg_allow_local_href` rule (fires since fix COMMIT_A) -/
+
+/-- what the rule leaves: if the element name is on the list, the `xlink:href` entry of the attribute dict (if
+any) has a value on which `re.search(r'^\s*[^#\s].*', v)` found nothing, i.e. `localRef` -/
+theorem stepLocalHref_spec (L : Lists) (name : Str) (attrs out : List Attr) (h : stepLocalHref L name attrs = .ok out)
+    (hn : nameInKeys name L.svgAllowLocalHref = true) (a : Attr)
+    (ha : out.find? (fun a => akey a = xlinkHref) = some a) : localRef a.value = true := by
+  unfold stepLocalHref at h
+  rw [if_pos hn] at h
+  split at h
+  next a0 hfind =>
+    simp only [bind_eq_ok, pure, Except.pure, Except.ok.injEq] at h
+    obtain ⟨m, hm, rfl⟩ := h
+    cases m with
+    | some m =>
+      simp only [Option.isSome_some, if_true] at ha
+      have hp := List.find?_some ha
+      have hmem := List.mem_of_find?_eq_some ha
+      simp only [List.mem_filter, decide_eq_true_eq] at hmem hp
+      exact absurd hp hmem.2
+    | none =>
+      simp only [Option.isSome_none, Bool.false_eq_true, if_false] at ha
+      rw [hfind] at ha
+      cases ha
+      exact localHref_search_none _ hm
+  next hfind =>
+    simp only [pure, Except.pure, Except.ok.injEq] at h
+    subst h
+    rw [hfind] at ha
+    cases ha
+
+theorem mapE_find {f : Attr → Except PyErr Attr} (k : Key) (l l' : List Attr) (h : mapE f l = .ok l')
+    (hf : ∀ a b, f a = .ok b → akey b = akey a ∧ (akey a = k → b = a)) :
+    l'.find? (fun a => akey a = k) = l.find? (fun a => akey a = k) := by
+  induction l generalizing l' with
+  | nil => simp [mapE, pure, Except.pure] at h; subst h; rfl
+  | cons x r ih =>
+    simp only [mapE, bind_eq_ok, pure, Except.pure, Except.ok.injEq] at h
+    obtain ⟨y, hy, r', hr, rfl⟩ := h
+    obtain ⟨hk, hsame⟩ := hf x y hy
+    simp only [List.find?_cons, hk]
+    by_cases hx : akey x = k
+    · simp [hx, hsame hx]
+    · simp [hx, ih r' hr]
+
+theorem xlinkHref_ne_style : xlinkHref ≠ styleKey := by
+  simp [xlinkHref, styleKey]
+
+theorem allowedAttrs_localHref (L : Lists) (name : Str) (attrs out : List Attr)
+    (h : allowedAttrs L name attrs = .ok out) (hn : nameInKeys name L.svgAllowLocalHref = true) (a : Attr)
+    (ha : out.find? (fun a => akey a = xlinkHref) = some a) : localRef a.value = true := by
+  simp only [allowedAttrs, bind_eq_ok] at h
+  obtain ⟨l1, _, l2, _, l3, h3, h4⟩ := h
+  have := mapE_find xlinkHref l3 out h4 (by
+    intro x y hxy
+    obtain ⟨k, u⟩ := stepStyle_key L x y hxy
+    exact ⟨k, fun e => u (by rw [e]; exact xlinkHref_ne_style)⟩)
+  rw [this] at ha
+  exact stepLocalHref_spec L name l2 l3 h3 hn a ha
+
+/-! #### attribute dicts: distinct keys stay distinct (used by `C09_svg_local_href_all`) -/
+
+theorem filterE_sublist {α} (f : α → Except PyErr Bool) (l l' : List α) (h : filterE f l = .ok l') : l'.Sublist l := by
+  induction l generalizing l' with
+  | nil => simp [filterE, pure, Except.pure] at h; subst h; exact List.Sublist.refl _
+  | cons x r ih =>
+    simp only [filterE, bind_eq_ok, pure, Except.pure, Except.ok.injEq] at h
+    obtain ⟨b, _, r', hr, rfl⟩ := h
+    cases b with
+    | false => exact (ih r' hr).cons x
+    | true => exact (ih r' hr).cons_cons x
+
+theorem mapE_keys {f : Attr → Except PyErr Attr} (l l' : List Attr) (h : mapE f l = .ok l')
+    (hf : ∀ a b, f a = .ok b → akey b = akey a) : l'.map akey = l.map akey := by
+  induction l generalizing l' with
+  | nil => simp [mapE, pure, Except.pure] at h; subst h; rfl
+  | cons x r ih =>
+    simp only [mapE, bind_eq_ok, pure, Except.pure, Except.ok.injEq] at h
+    obtain ⟨y, hy, r', hr, rfl⟩ := h
+    simp [hf x y hy, ih r' hr]
+
+theorem stepLocalHref_sublist (L : Lists) (name : Str) (attrs out : List Attr) (h : stepLocalHref L name attrs = .ok out) :
+    out.Sublist attrs := by
+  unfold stepLocalHref at h
+  split at h
+  · split at h
+    · simp only [bind_eq_ok, pure, Except.pure, Except.ok.injEq] at h
+      obtain ⟨m, _, rfl⟩ := h
+      split
+      · exact List.filter_sublist
+      · exact List.Sublist.refl _
+    · simp only [pure, Except.pure, Except.ok.injEq] at h
+      subst h; exact List.Sublist.refl _
+  · simp only [pure, Except.pure, Except.ok.injEq] at h
+    subst h; exact List.Sublist.refl _
+
+/-- `allowed_token` only deletes entries of the attribute dict and rewrites values: the keys of the result are a
+sub-sequence of the keys of the input -/
+theorem allowedAttrs_keys (L : Lists) (name : Str) (attrs out : List Attr) (h : allowedAttrs L name attrs = .ok out) :
+    (out.map akey).Sublist (attrs.map akey) := by
+  simp only [allowedAttrs, bind_eq_ok] at h
+  obtain ⟨l1, h1, l2, h2, l3, h3, h4⟩ := h
+  have e4 := mapE_keys l3 out h4 (fun a b hab => (stepStyle_key L a b hab).1)
+  have e2 := mapE_keys l1 l2 h2 (fun a b hab => (stepSvgRef_key L a b hab).1)
+  have s3 := (stepLocalHref_sublist L name l2 l3 h3).map akey
+  have s1 := ((filterE_sublist _ _ _ h1).trans (List.filter_sublist (l := attrs))).map akey
+  rw [e4]
+  rw [e2] at s3
+  exact s3.trans s1
+
+theorem find_of_nodup (k : Key) (l : List Attr) (hnd : (l.map akey).Nodup) (a : Attr) (ha : a ∈ l) (hk : akey a = k) :
+    l.find? (fun a => akey a = k) = some a := by
+  induction l with
+  | nil => simp at ha
+  | cons x r ih =>
+    simp only [List.map_cons, List.nodup_cons] at hnd
+    simp only [List.mem_cons] at ha
+    rcases ha with rfl | ha
+    · simp [List.find?_cons, hk]
+    · have hx : akey x ≠ k := by
+        intro e
+        exact hnd.1 (by rw [e, ← hk]; exact List.mem_map_of_mem ha)
+      simp only [List.find?_cons, hx, decide_false]
+      exact ih hnd.2 ha
 
 /-! ### tokens -/
 
@@ -929,6 +1069,13 @@ theorem C09_css_props (L : Lists) (style out : Str) (h : sanitizeCss L style = .
       ∀ pv ∈ decls, pv.2 ≠ [] ∧ DeclAllowed L pv.1 pv.2 := by
   simp only [sanitizeCss, bind_eq_ok] at h
   obtain ⟨style', _, h⟩ := h
+  obtain ⟨g, _, h⟩ := h
+  cases g with
+  | some _ =>
+    simp only [pure, Except.pure, Except.ok.injEq] at h
+    exact ⟨[], by simp [← h, joinSp], by simp⟩
+  | none =>
+  simp only [bind_eq_ok] at h
   obtain ⟨m1, _, h⟩ := h
   cases m1 with
   | none =>
@@ -953,24 +1100,28 @@ theorem C09_css_props (L : Lists) (style out : Str) (h : sanitizeCss L style = .
         refine ⟨?_, declKeep_sound L pv.1 pv.2 hf⟩
         intro e; rw [e] at hne; exact hne rfl
 
-/-! #### the clause "never url()" is FALSE: witnesses on the model (the oracle reproduces them on the real code) -/
+/-! #### the clause "never url()": regression examples of the three defects repaired by COMMIT_B (the remover is
+now `url\s*\([^)]*\)\s*` with IGNORECASE), the general theorem `C09_css_no_url` is below -/
 
-/-- `sanitize_css("color: URL(1)") = "color: URL(1);"` — the `url(...)` remover is case-sensitive, the gauntlet admits
-`(` digits `)`, and CSS function names are case-insensitive. -/
+/-- `sanitize_css("color: URL(1)") = ""` (was `"color: URL(1);"`: the remover was case-sensitive) -/
 theorem C09_css_url_uppercase_witness :
-    sanitizeCss defaultLists [99, 111, 108, 111, 114, 58, 32, 85, 82, 76, 40, 49, 41] = .ok [99, 111, 108, 111, 114, 58, 32, 85, 82, 76, 40, 49, 41, 59] := by decide +kernel
+    sanitizeCss defaultLists [99, 111, 108, 111, 114, 58, 32, 85, 82, 76, 40, 49, 41] = .ok [] := by decide +kernel
 
-/-- `sanitize_css("color: url( 1 2 )") = "color: url( 1 2 );"` — the remover needs a space-free argument. -/
+/-- `sanitize_css("color: url( 1 2 )") = ""` (was kept: the remover needed a space-free argument) -/
 theorem C09_css_url_spaces_witness :
-    sanitizeCss defaultLists [99, 111, 108, 111, 114, 58, 32, 117, 114, 108, 40, 32, 49, 32, 50, 32, 41] = .ok [99, 111, 108, 111, 114, 58, 32, 117, 114, 108, 40, 32, 49, 32, 50, 32, 41, 59] := by decide +kernel
+    sanitizeCss defaultLists [99, 111, 108, 111, 114, 58, 32, 117, 114, 108, 40, 32, 49, 32, 50, 32, 41] = .ok [] := by decide +kernel
 
-/-- `sanitize_css("color: url( )") = "color: url( );"` — the remover needs a non-empty argument. -/
+/-- `sanitize_css("color: url( )") = ""` (was kept: the remover needed a non-empty argument) -/
 theorem C09_css_url_empty_witness :
-    sanitizeCss defaultLists [99, 111, 108, 111, 114, 58, 32, 117, 114, 108, 40, 32, 41] = .ok [99, 111, 108, 111, 114, 58, 32, 117, 114, 108, 40, 32, 41, 59] := by decide +kernel
+    sanitizeCss defaultLists [99, 111, 108, 111, 114, 58, 32, 117, 114, 108, 40, 32, 41] = .ok [] := by decide +kernel
 
-/-- contrast: the lower-case, space-free form is removed (and the declaration with it) -/
+/-- the lower-case, space-free form is removed as before (and the declaration with it) -/
 theorem C09_css_url_removed_example :
     sanitizeCss defaultLists [99, 111, 108, 111, 114, 58, 32, 117, 114, 108, 40, 49, 41] = .ok [] := by decide +kernel
+
+/-- an unterminated `url(` is not removed but stopped by the gauntlet: `sanitize_css("color: url(1") = ""` -/
+theorem C09_css_url_unterminated_example :
+    sanitizeCss defaultLists [99, 111, 108, 111, 114, 58, 32, 117, 114, 108, 40, 49] = .ok [] := by decide +kernel
 
 /-! #### findings of the URI clause, as evaluations of the model -/
 
@@ -1024,6 +1175,13 @@ that survives as `url(…)`/`URL(…)`/`expression(…)` can only carry digits, 
 theorem C09_css_parens (L : Lists) (style out : Str) (h : sanitizeCss L style = .ok out) : ParenOk out := by
   simp only [sanitizeCss, bind_eq_ok] at h
   obtain ⟨style', _, h⟩ := h
+  obtain ⟨g, _, h⟩ := h
+  cases g with
+  | some _ =>
+    simp only [pure, Except.pure, Except.ok.injEq] at h
+    subst h; exact parenOk_of_free [] (by simp)
+  | none =>
+  simp only [bind_eq_ok] at h
   obtain ⟨m1, hm1, h⟩ := h
   cases m1 with
   | none =>
@@ -1067,5 +1225,183 @@ example : ¬ ParenOk [40, 97, 41] := by
     rw [← e.1] at this
     revert this
     decide +kernel
+
+/-! #### "never url()" (since fix COMMIT_B) -/
+
+theorem fmtDecl_urlFreeS (pv : Str × Str) (y : Str) (h40 : 40 ∉ pv.1) (hv : UrlFreeS pv.2) (hy : UrlFreeS y) :
+    UrlFreeS (fmtDecl pv ++ y) := by
+  have e : fmtDecl pv ++ y = pv.1 ++ 58 :: (32 :: (pv.2 ++ 59 :: y)) := by simp [fmtDecl]
+  rw [e]
+  refine urlFreeS_sep _ _ 58 (urlFreeS_of_no_paren _ h40) ?_ (by decide) (by decide +kernel)
+  refine urlFreeS_cons 32 _ (by unfold isU; omega) ?_
+  exact urlFreeS_sep _ _ 59 hv hy (by decide) (by decide +kernel)
+
+theorem joinSp_urlFreeS (l : List (Str × Str)) (h : ∀ pv ∈ l, 40 ∉ pv.1 ∧ UrlFreeS pv.2) : UrlFreeS (joinSp (l.map fmtDecl)) := by
+  induction l with
+  | nil => exact urlFreeS_nil
+  | cons x r ih =>
+    have hx := h x List.mem_cons_self
+    cases r with
+    | nil =>
+      have := fmtDecl_urlFreeS x [] hx.1 hx.2 urlFreeS_nil
+      simpa [joinSp] using this
+    | cons y r' =>
+      have e : joinSp ((x :: y :: r').map fmtDecl) = fmtDecl x ++ 32 :: joinSp ((y :: r').map fmtDecl) := by simp [joinSp]
+      rw [e]
+      exact fmtDecl_urlFreeS x _ hx.1 hx.2
+        (urlFreeS_cons 32 _ (by unfold isU; omega) (ih (fun z hz => h z (List.mem_cons_of_mem _ hz))))
+
+/-- **C09 (CSS: never `url(`).** whatever `sanitize_css` returns contains no `url` (in any letter case) followed by
+zero or more characters of Python's `\s` class and `(`: no suffix of the result starts with `[uU][rR][lL]\s*\(` — for
+every input and every configuration.  (Python's IGNORECASE folds nothing else onto `u`, `r`, `l`: the generator
+evaluates the compiled items on every code point.)  Proof: the guard `if re.search(r'url\s*\(', style, re.I): return ''`
+cannot miss an occurrence (`run_complete`/`searchAux_none`: a search that reports nothing has refuted every exact match
+at every position), a declaration value is a piece of the guarded text, and gluing `prop: value;` items with `' '`
+creates no new occurrence (every value is preceded by `: ` and followed by `;`). -/
+theorem C09_css_no_url (L : Lists) (style out : Str) (h : sanitizeCss L style = .ok out) :
+    ∀ a t, out = a ++ t → urlOpenS t = false := by
+  have key : UrlFreeS out := by
+    simp only [sanitizeCss, bind_eq_ok] at h
+    obtain ⟨style', _, h⟩ := h
+    obtain ⟨g, hg, h⟩ := h
+    cases g with
+    | some _ =>
+      simp only [pure, Except.pure, Except.ok.injEq] at h
+      subst h; exact urlFreeS_nil
+    | none =>
+      have hs : UrlFreeS style' := guard_urlFreeS style' hg
+      simp only [bind_eq_ok] at h
+      obtain ⟨m1, _, h⟩ := h
+      cases m1 with
+      | none =>
+        simp only [pure, Except.pure, Except.ok.injEq] at h
+        subst h; exact urlFreeS_nil
+      | some m1 =>
+        simp only [bind_eq_ok] at h
+        obtain ⟨m2, _, h⟩ := h
+        cases m2 with
+        | none =>
+          simp only [pure, Except.pure, Except.ok.injEq] at h
+          subst h; exact urlFreeS_nil
+        | some _ =>
+          simp only [bind_eq_ok, pure, Except.pure, Except.ok.injEq] at h
+          obtain ⟨decls, hd, kept, hk, rfl⟩ := h
+          apply joinSp_urlFreeS
+          intro pv hpv
+          obtain ⟨hmem, _⟩ := filterE_mem _ _ _ hk pv hpv
+          obtain ⟨h40, a, rest, e, _⟩ := findall2_decls style' decls hd pv hmem
+          exact ⟨h40, urlFreeS_infix style' a pv.2 rest hs e⟩
+  intro a t e
+  cases ho : urlOpenS t with
+  | false => rfl
+  | true =>
+    obtain ⟨u, r, l, ws, t', rfl, hu, hr, hl, hws⟩ := urlOpenS_decomp t ho
+    exact (key a u r l ws t' e hu hr hl hws).elim
+
+/-- regression of the interim finding of the first form of COMMIT_B (remover without the guard): the single pass of
+`sub` glued the text around a removed `url(…)` with one space, `sanitize_css("color: urlurl(1)(2)")` was
+`"color: url (2);"`; with the guard it is `""` -/
+theorem C09_css_url_spaced_witness :
+    sanitizeCss defaultLists [99, 111, 108, 111, 114, 58, 32, 117, 114, 108, 117, 114, 108, 40, 49, 41, 40, 50, 41] = .ok [] := by
+  decide +kernel
+
+/-- the remover alone (first step of `sanitize_css`) does leave `url (2)` on that input: the guard is what stops it -/
+theorem C09_css_url_spaced_remover_example :
+    sub cl H5.Gen.San.reCssUrl [32] [117, 114, 108, 117, 114, 108, 40, 49, 41, 40, 50, 41] = .ok [117, 114, 108, 32, 40, 50, 41] := by
+  decide +kernel
+
+/-- non-vacuity of the statement's predicate: `UrL(`, `url \n(` are hits, `url x(` is not -/
+example : urlOpenS [85, 114, 76, 40, 49, 41] = true ∧ urlOpenS [117, 114, 108, 32, 10, 40] = true ∧
+    urlOpenS [117, 114, 108, 32, 120, 40] = false := by decide +kernel
+
+/-! #### the `svg_allow_local_href` clause (since fix COMMIT_A) -/
+
+/-- where the attributes of an output tag come from: `allowed_token` on the attributes of an input token with
+the same name (or the tag has no attributes: an EndTag) -/
+theorem out_tag_origin (L : Lists) (ts : List (Tok × Bool)) (out : List Tok) (h : filterSC L ts = .ok out)
+    (t : Tok) (ht : t ∈ out) (ns : Option Str) (name : Str) (hk : tagKey t = some (ns, name)) :
+    (∃ p ∈ ts, allowedAttrs L name (tokAttrs p.1) = .ok (tokAttrs t)) ∨ tokAttrs t = [] := by
+  obtain ⟨p, hpm, hs⟩ := filterSC_mem L ts out h t ht
+  rcases sanitizeToken_cases L p.2 p.1 _ hs with ⟨hti, _, t', e, hat⟩ | ⟨_, _, d, e⟩ | ⟨_, e⟩ | ⟨hnt, _, e⟩
+  · cases e
+    cases hp : p.1 with
+    | startTag ns0 name0 attrs =>
+      rw [hp] at hat
+      simp only [allowedToken, bind_eq_ok, pure, Except.pure, Except.ok.injEq] at hat
+      obtain ⟨o, ho, rfl⟩ := hat
+      simp only [tagKey, Option.some.injEq, Prod.mk.injEq] at hk
+      obtain ⟨_, rfl⟩ := hk
+      exact Or.inl ⟨p, hpm, by rw [hp]; exact ho⟩
+    | emptyTag ns0 name0 attrs =>
+      rw [hp] at hat
+      simp only [allowedToken, bind_eq_ok, pure, Except.pure, Except.ok.injEq] at hat
+      obtain ⟨o, ho, rfl⟩ := hat
+      simp only [tagKey, Option.some.injEq, Prod.mk.injEq] at hk
+      obtain ⟨_, rfl⟩ := hk
+      exact Or.inl ⟨p, hpm, by rw [hp]; exact ho⟩
+    | endTag ns0 name0 =>
+      rw [hp] at hat
+      simp only [allowedToken, Except.ok.injEq] at hat
+      subst hat
+      exact Or.inr rfl
+    | _ => rw [hp] at hti; simp [Tok.isTag] at hti
+  · cases e; simp [tagKey] at hk
+  · cases e
+  · cases e
+    cases hp : p.1 <;> simp_all [Tok.isTag, tagKey]
+
+/-- **C09 (SVG local references).** in an output tag whose name is on `svg_allow_local_href` (the code tests
+`(None, name)`, whatever the token's namespace), the `xlink:href` entry of the attribute dict — if there is one —
+has a value that is a local reference in exactly the sense of the code's `re.search(r'^\s*[^#\s].*', v)` finding
+nothing: after the leading white space (Python's Unicode `\s`, which includes the newlines) the value is over (empty
+or all-white-space value) or continues with `#`.  For every token list and every configuration.
+(`find?` is the dict lookup `attrs[(xlink, 'href')]`; `C09_svg_local_href_all` is the form "every such attribute" for
+attribute lists with distinct keys.) -/
+theorem C09_svg_local_href (L : Lists) (ts : List (Tok × Bool)) (out : List Tok) (h : filterSC L ts = .ok out)
+    (t : Tok) (ht : t ∈ out) (ns : Option Str) (name : Str) (hk : tagKey t = some (ns, name))
+    (hn : (none, name) ∈ L.svgAllowLocalHref) (a : Attr)
+    (ha : (tokAttrs t).find? (fun a => akey a = xlinkHref) = some a) : localRef a.value = true := by
+  have hn' : nameInKeys name L.svgAllowLocalHref = true := List.elem_eq_true_of_mem hn
+  rcases out_tag_origin L ts out h t ht ns name hk with ⟨p, _, ho⟩ | hnil
+  · exact allowedAttrs_localHref L name _ _ ho hn' a ha
+  · rw [hnil] at ha; cases ha
+
+/-- the same for EVERY `xlink:href` attribute of the output tag, when the attributes of each input token have
+pairwise distinct keys (they are the items of a Python dict) -/
+theorem C09_svg_local_href_all (L : Lists) (ts : List (Tok × Bool)) (out : List Tok) (h : filterSC L ts = .ok out)
+    (hdict : ∀ p ∈ ts, ((tokAttrs p.1).map akey).Nodup)
+    (t : Tok) (ht : t ∈ out) (ns : Option Str) (name : Str) (hk : tagKey t = some (ns, name))
+    (hn : (none, name) ∈ L.svgAllowLocalHref) (a : Attr) (ha : a ∈ tokAttrs t) (hx : akey a = xlinkHref) :
+    localRef a.value = true := by
+  have hn' : nameInKeys name L.svgAllowLocalHref = true := List.elem_eq_true_of_mem hn
+  rcases out_tag_origin L ts out h t ht ns name hk with ⟨p, hp, ho⟩ | hnil
+  · have hnd : ((tokAttrs t).map akey).Nodup := (allowedAttrs_keys L name _ _ ho).nodup (hdict p hp)
+    exact allowedAttrs_localHref L name _ _ ho hn' a (find_of_nodup xlinkHref _ hnd a ha hx)
+  · rw [hnil] at ha; cases ha
+
+/-- **what the test means**, for every value: `re.search(r'^\s*[^#\s].*', v)` finds something iff `v` is NOT a local
+reference (`localRef v = false`: some first non-white-space character exists and is not `#`) -/
+theorem C09_svg_local_href_exact (v : Str) (o : Option Match) (h : search cl H5.Gen.San.reLocalHref v = .ok o) :
+    o.isSome = !localRef v := localHref_search_iff v o h
+
+/-- exactness of `localRef`: the code's test finds something exactly when the value is NOT a local reference, e.g.
+`"http://e/x#a"`, `" x"`, `"\nx"` are deleted; `""`, `"  "`, `"#a"`, `"\n #a"` are kept (model evaluations) -/
+theorem C09_svg_local_href_examples :
+    (search cl H5.Gen.San.reLocalHref [104, 116, 116, 112, 58, 47, 47, 101, 47, 120, 35, 97]).map Option.isSome = .ok true ∧
+    (search cl H5.Gen.San.reLocalHref [32, 120]).map Option.isSome = .ok true ∧
+    (search cl H5.Gen.San.reLocalHref [10, 120]).map Option.isSome = .ok true ∧
+    (search cl H5.Gen.San.reLocalHref []).map Option.isSome = .ok false ∧
+    (search cl H5.Gen.San.reLocalHref [32, 32]).map Option.isSome = .ok false ∧
+    (search cl H5.Gen.San.reLocalHref [35, 97]).map Option.isSome = .ok false ∧
+    (search cl H5.Gen.San.reLocalHref [10, 32, 35, 97]).map Option.isSome = .ok false ∧
+    localRef [104, 116, 116, 112, 58, 47, 47, 101, 47, 120, 35, 97] = false ∧ localRef [10, 120] = false ∧
+    localRef [] = true ∧ localRef [32, 32] = true ∧ localRef [10, 32, 35, 97] = true := by decide +kernel
+
+/-- regression of finding C09-svg-local-href-dead (fixed in COMMIT_A): `<use xlink:href="http://e/x#a">` (SVG) loses
+the attribute, `xlink:href="#a"` keeps it -/
+theorem C09_svg_nonlocal_href_witness :
+    allowedAttrs defaultLists [117, 115, 101] [⟨some H5.Gen.San.xlinkNs, [104, 114, 101, 102], [104, 116, 116, 112, 58, 47, 47, 101, 47, 120, 35, 97]⟩] = .ok [] ∧
+    allowedAttrs defaultLists [117, 115, 101] [⟨some H5.Gen.San.xlinkNs, [104, 114, 101, 102], [35, 97]⟩]
+      = .ok [⟨some H5.Gen.San.xlinkNs, [104, 114, 101, 102], [35, 97]⟩] := by decide +kernel
 
 end H5.Props.C09
